@@ -901,6 +901,42 @@ def total_scope(res, pid, rng, tier):
                 oba.anonymize_io(io.StringIO(ln + "\n"), o)
             except Exception as e:  # noqa
                 fails.append({"kind": "processing a line raised %s" % type(e).__name__, "as_numbers": asl, "line": ln, "exc": repr(e)[:300]})
+    # volume: one object sees thousands of distinct addresses of both families (memo growth must not make a later line fail)
+    obv = fa.FaCfg(salt="vol%d" % res.seed, ip=True).build()
+    vol = ["ipv6 address %s/64" % ":".join("%x" % rng.getrandbits(16) for _ in range(8)) for i in range(3000)]
+    vol += ["ip host h%d %d.%d.%d.%d" % (i, rng.randint(1, 223), rng.getrandbits(8), rng.getrandbits(8), rng.getrandbits(8)) for i in range(14000 if tier == "thorough" else 9000)]
+    o = io.StringIO()
+    res.evaluations += len(vol)
+    try:
+        obv.anonymize_io(io.StringIO("".join(v + "\n" for v in vol)), o)
+        if o.getvalue().count("\n") != len(vol):
+            fails.append({"kind": "one line in did not give one line out", "lines": len(vol), "output_lines": o.getvalue().count("\n")})
+    except Exception as e:  # noqa
+        done = o.getvalue().count("\n")
+        fails.append({"kind": "processing a line raised %s" % type(e).__name__, "line": vol[min(done, len(vol) - 1)],
+                      "after_lines_of_distinct_addresses": done, "exc": repr(e)[:300]})
+    # the log level is no input: the same short lines (scrubbed ones among them) at every level of the root logger
+    import logging as _lg
+    root = _lg.getLogger()
+    old_level = root.level
+    short = ["  key-string 7 070C285F4D06", "cable shared-secret 0 abc123", "password 7 0822455D0A16", "a", "", "set community X1y2z3w4", "hostname sea-1 65001 10.1.2.3",
+             " key 7 070C285F4D06", "ntp authentication-key 1 md5 0822455D0A16 7", "enable secret 5 " + L.gen_secret(rng, "md5")]
+    try:
+        for lvl in (_lg.DEBUG, _lg.INFO, _lg.WARNING, _lg.ERROR, _lg.CRITICAL):
+            root.setLevel(lvl)
+            obl = fa.FaCfg(salt="lvl", pwd=True, ip=True, words=["sea"], asn=["65001"]).build()
+            for ln in short:
+                o = io.StringIO()
+                res.evaluations += 1
+                try:
+                    obl.anonymize_io(io.StringIO(ln + "\n"), o)
+                except Exception as e:  # noqa
+                    fails.append({"kind": "processing a line raised %s" % type(e).__name__, "root_log_level": _lg.getLevelName(lvl), "line": ln, "exc": repr(e)[:300]})
+                    continue
+                if o.getvalue().count("\n") != 1:
+                    fails.append({"kind": "one line in did not give one line out", "root_log_level": _lg.getLevelName(lvl), "line": ln, "output": o.getvalue()})
+    finally:
+        root.setLevel(old_level)
     # very long runs of enclosing characters
     for k in (1200, 3000):
         for ln in ['password ' + '"' * k + 'x' + '"' * k, "secret " + "[" * k + "y" + "]" * k, "key " + "'" * k]:
